@@ -7,6 +7,11 @@ ROOT = os.path.dirname(os.path.dirname(os.path.abspath(__file__)))
 pid = sys.argv[1]
 flt = sys.argv[2] if len(sys.argv) > 2 else ""
 path = os.path.join(ROOT, "known_findings.json")
+if os.environ.get("VERIF_REPLAYS") and not os.environ.get("VERIF_ADOPT_CLEAN_TREE_CONFIRMED"):
+    ev = os.path.join(ROOT, "evidence_scratch", pid + ".json")
+    print("replays_scratch/ holds the LATEST scratch run, which may have been a run against a deliberately broken tree.\n"
+          "Re-run `VERIF_SCRATCH=1 ./check", pid + "` on the clean /repo first, then set VERIF_ADOPT_CLEAN_TREE_CONFIRMED=1.")
+    sys.exit(2)
 known = json.load(open(path))
 have = {(e["property"], e["signature"]) for e in known}
 n = 0
